@@ -59,6 +59,13 @@ CHECKS = {
  "C03": ("opspace+stategraph", "bounded-exhaustive enumeration of (operation, operands, context) x the trap-set lattice on the real code with a relational oracle against the untrapped execution; explicit-state BFS of the ErrDecimal machine against a two-field model",
          "Part A: every case of the alphabet is run under the empty trap set and under 80 trap sets (all 4096 on a core of cases; everywhere for single-rounding operations in the thorough tier): trapped condition => error, nil error => identical result and flags, single-rounding operations: error iff trapped/system with the result delivered alongside. Part B: BFS over sequences of the 21 ErrDecimal wrappers x 7 argument tuples x 3 trap sets to depth 3 (+ all unmerged length-2 sequences) against the model 'once failed, nothing is touched; otherwise exactly the Context operation of the same name'.",
          "Composite functions may fail under non-empty trap sets although the final result is exact; errors of composite functions under the empty trap set are not judged by this property.", "4/C03"),
+
+ "C11": ("opspace", "exhaustive enumeration of every coefficient below 10^(2p+2) for small precisions plus sparse guard-digit families and midpoint pre-images on the real code against an integer-root oracle with sticky bit",
+         "Sqrt: value equals the exact root rounded half-even once and Inexact iff not exactly representable, for literally every significand class at p <= 2 (3 thorough), SHAPE families at p = 1..16 under all context modes, and the integers around every p-digit midpoint's square; Cbrt: exact (r+-ulp)^3 bracket and exactness on every perfect cube m^3, m < 2000 (10^4).",
+         "One known finding is matched by an input predicate (root within two units of the (workp+5)-th digit of a midpoint).", "4/C11"),
+ "C12": ("opspace", "bounded-exhaustive enumeration of function x operand x precision x range x mode on the real code against a high-precision real reference with explicit error bound and undecided handling",
+         "Exp/Ln/Log10/Pow on dense and sparse operand families (operands longer than Precision, arguments 10^k(1+-10^-j), the 23*p thresholds), precisions 1..9 plus 16/34/60 and one operand per level of the ln10/1/ln10 constant tables; |result - true| <= 1 ulp decided with a reference whose precision is doubled until the question is decided; exact-by-definition cases exactly; overflow/underflow reports checked against the true magnitude.",
+         "The reference's error bound is conservative but not machine-checked; two known findings are matched by input predicates.", "4/C12"),
 }
 
 NOT_YET = {}
